@@ -28,7 +28,24 @@ def budget(tier):
 @st.composite
 def _cases(draw, tier):
     shape = draw(st.sampled_from(['any', 'any', 'few_lecturers', 'many_lecturers']))
-    if pct(draw) < 3:
+    k = pct(draw)
+    if k >= 98 or (tier == 'thorough' and k >= 96):
+        # a second-side agent ranked by more than a thousand first-side agents
+        mp = draw(st.sampled_from(['hr', 'hr', 'spa', 'sm'] if tier == 'thorough' else ['hr', 'spa']))
+        n1 = draw(st.sampled_from([1001, 1100, 1300]))
+        v = {'mp': mp, 'numinst': 1, 'n1': n1, 'twopl': True, 'seed': uni(draw, 0, 9999),
+             't2': draw(st.sampled_from([None, 0.0, 0.3]))}
+        if v['t2'] is None:
+            del v['t2']
+        if mp == 'sm':
+            v.update(pmin=n1, pmax=n1)
+        else:
+            n2 = draw(st.sampled_from([1, 2, 3]))
+            v.update(n2=n2, uq=n1, pmin=draw(st.sampled_from([1, n2])), pmax=n2)
+        if mp == 'spa':
+            v.update(n3=draw(st.sampled_from([1, 2])), luq=n1)
+        return {'v': v, 'prior': None}
+    if k < 3:
         # hundreds of first-side agents, few second-side ones (id widths, wrap-around)
         mp = draw(st.sampled_from(['hr', 'spa', 'sm']))
         n1 = draw(st.sampled_from([256, 257, 300]))
@@ -70,6 +87,30 @@ def describe(case):
     return {'argv': genargs.build_argv(case['v'], '<outdir>'), 'rng_seed': case['v']['seed']}
 
 
+def lenient_second_side(text, na, v):
+    """Called when the strict reader refuses the file: if the body has the expected number of
+    lines, every token of a second-side list must still be an agent number."""
+    import re
+    lines = text.split('\n')
+    try:
+        counts = [int(x) for x in lines[0].split()]
+        n1, n2 = counts[0], counts[1]
+        n3 = counts[2] if na == 3 else 0
+    except (ValueError, IndexError):
+        return
+    first = n1 + 1 + (n2 if na == 3 else 0)
+    count = n3 if na == 3 else n2
+    if len(lines) < first + count:
+        return
+    for k in range(count):
+        toks = lines[first + k].split()
+        for t in toks[(4 if na == 3 else 3):]:
+            if not re.match(r'^\(?\d+\)?$', t):
+                who = ('lecturer' if na == 3 else ('hospital' if v['mp'] == 'hr' else 'woman'))
+                raise Violation('lists_stranger', '%s %d lists %r, which is not an agent'
+                                % (who, k + 1, t))
+
+
 def run_case(case):
     v = case['v']
     genargs.run_prior(case.get('prior'))
@@ -81,12 +122,15 @@ def run_case(case):
         return Result(False, ['skipped:rejected'])
     na = genargs.na_of(v)
     nt = False
-    labels = set(['mp=' + v['mp']] + ['n1>=256'] * (v['n1'] >= 256))
+    labels = set(['mp=' + v['mp']] + ['n1>=256'] * (v['n1'] >= 256) + ['n1>1000'] * (v['n1'] > 1000))
     for idx, text in enumerate(genargs.read_outputs(outdir, v['numinst'])):
         try:
             I, _ = refmodel.parse(text, na)
         except refmodel.FormatError as e:
-            return Result(False, ['skipped:malformed'])   # C08's statement
+            # the format is C08's statement; a second-side list holding something that is not
+            # an agent number is this property's ("no other agent appears")
+            lenient_second_side(text, na, v)
+            return Result(False, ['skipped:malformed'])
         for k in range(I['n3']):
             want = sorted(i + 1 for i in range(I['n1'])
                           if any(I['plec'][p - 1] == k + 1 for g in I['prefs'][i] for p in g))
